@@ -6,6 +6,8 @@ import (
 	"go/constant"
 	"go/token"
 	"go/types"
+	"sort"
+	"strings"
 
 	"pgoverif/checker/an"
 	"pgoverif/checker/core"
@@ -25,11 +27,20 @@ func init() {
 }
 
 type dtAtoms struct {
-	pkg *types.Package
-	env *dtEnv
+	pkg   *types.Package
+	env   *dtEnv
+	alias map[string]string // table name -> name in the code (locals renamed by a refactoring)
+}
+
+func (a dtAtoms) tr(name string) string {
+	if n, ok := a.alias[name]; ok {
+		return n
+	}
+	return name
 }
 
 func (a dtAtoms) I(name string) int64 {
+	name = a.tr(name)
 	v, ok := a.env.ints[name]
 	if !ok {
 		panic("decision table refers to unknown integer term " + name)
@@ -37,6 +48,7 @@ func (a dtAtoms) I(name string) int64 {
 	return v
 }
 func (a dtAtoms) B(name string) bool {
+	name = a.tr(name)
 	v, ok := a.env.bools[name]
 	if !ok {
 		panic("decision table refers to unknown atom " + name)
@@ -435,19 +447,6 @@ func runDecisionRows(c *core.Ctx, e *Env, pkgPath, defaultType string, rows []dt
 		fr := &dtFrame{info: info, subst: map[types.Object]dtBound{}, recv: recv}
 		ev := newDtEval(e)
 		ev.occ = row.occ
-		// declare the reference's atoms
-		for name, tn := range row.ints {
-			var ty types.Type = types.Typ[types.Int]
-			if tn != "" {
-				if o, ok := pk.Types.Scope().Lookup(tn).(*types.TypeName); ok {
-					ty = o.Type()
-				}
-			}
-			ev.intTerms[name] = ty
-		}
-		for _, b := range row.bools {
-			ev.boolAtoms[b] = true
-		}
 		type eff struct {
 			paths [][]dtGuard
 			value ast.Expr
@@ -584,98 +583,187 @@ func runDecisionRows(c *core.Ctx, e *Env, pkgPath, defaultType string, rows []dt
 			}
 		}
 		collect(nil)
-		// atoms the code uses but the table does not know make the comparison meaningless: report them
-		extra := ""
-		for name := range ev.intTerms {
-			if _, ok := row.ints[name]; !ok {
-				extra += " " + name
+		// local variables / parameters of the function (candidates for renaming)
+		localNames := map[string]bool{}
+		ast.Inspect(fn.Decl, func(m ast.Node) bool {
+			if id, ok := m.(*ast.Ident); ok {
+				if v, ok := info.Defs[id].(*types.Var); ok && v != nil && !v.IsField() {
+					localNames[id.Name] = true
+				}
 			}
-		}
-		known := map[string]bool{}
-		for _, b := range row.bools {
-			known[b] = true
+			return true
+		})
+		codeRoots, refRoots := map[string]bool{}, map[string]bool{}
+		for name := range ev.intTerms {
+			for _, r := range rootIdents(name) {
+				codeRoots[r] = true
+			}
 		}
 		for name := range ev.boolAtoms {
-			if !known[name] {
-				extra += " " + name
+			for _, r := range rootIdents(name) {
+				codeRoots[r] = true
 			}
+		}
+		for name := range row.ints {
+			for _, r := range rootIdents(name) {
+				refRoots[r] = true
+			}
+		}
+		for _, name := range row.bools {
+			for _, r := range rootIdents(name) {
+				refRoots[r] = true
+			}
+		}
+		var rl, cl []string
+		for r := range refRoots {
+			if !codeRoots[r] && !localNames[r] {
+				rl = append(rl, r)
+			}
+		}
+		for r := range codeRoots {
+			if !refRoots[r] && localNames[r] {
+				cl = append(cl, r)
+			}
+		}
+		sort.Strings(rl)
+		sort.Strings(cl)
+		// candidate renamings of the table's local names (identity first)
+		renamings := []map[string]string{{}}
+		if len(rl) > 0 && len(rl) == len(cl) && len(rl) <= 3 {
+			renamings = nil
+			permute(cl, func(perm []string) {
+				m := map[string]string{}
+				for i, r := range rl {
+					m[r] = perm[i]
+				}
+				renamings = append(renamings, m)
+			})
+		}
+		codeInts := map[string]types.Type{}
+		for k, v := range ev.intTerms {
+			codeInts[k] = v
+		}
+		codeBools := map[string]bool{}
+		for k := range ev.boolAtoms {
+			codeBools[k] = true
 		}
 		mismatch := ""
 		n := 0
-		func() {
-			defer func() {
-				if r := recover(); r != nil {
-					evalErr = fmt.Errorf("%v", r)
-				}
-			}()
-			// row-specific domains
-			evd := ev
-			evd.enumerateWith(pk.Types, row.intDom, func(env *dtEnv) bool {
-				n++
-				a := dtAtoms{pkg: pk.Types, env: env}
-				if expr != nil {
-					got, err := ev.evalBool(expr, fr, env)
-					if err != nil {
-						evalErr = err
-						return false
+		extra := ""
+		for ri, ren := range renamings {
+			mismatch, evalErr, n = "", nil, 0
+			// declare the reference's atoms under this renaming
+			alias := map[string]string{}
+			ev.intTerms = map[string]types.Type{}
+			for k, v := range codeInts {
+				ev.intTerms[k] = v
+			}
+			ev.boolAtoms = map[string]bool{}
+			for k := range codeBools {
+				ev.boolAtoms[k] = true
+			}
+			for name, tn := range row.ints {
+				var ty types.Type = types.Typ[types.Int]
+				if tn != "" {
+					if o, ok := pk.Types.Scope().Lookup(tn).(*types.TypeName); ok {
+						ty = o.Type()
 					}
-					if got != row.ref(a) {
-						mismatch = fmt.Sprintf("for %s the code decides %v, the table %v", env, got, !got)
-						return false
-					}
-					return true
 				}
-				if row.refInt != nil {
-					// exactly one assignment applies and it has the prescribed value
-					hits := 0
-					for _, ef := range effs {
-						ok := false
-						for _, pth := range ef.paths {
-							o, err := ev.evalGuards(pth, fr, env)
+				nn := renameRoots(name, ren)
+				alias[name] = nn
+				if _, ok := ev.intTerms[nn]; !ok {
+					ev.intTerms[nn] = ty
+				}
+			}
+			for _, b := range row.bools {
+				nn := renameRoots(b, ren)
+				alias[b] = nn
+				ev.boolAtoms[nn] = true
+			}
+			intDom := map[string][]int64{}
+			for k, v := range row.intDom {
+				intDom[renameRoots(k, ren)] = v
+			}
+			_ = extra
+			func() {
+				defer func() {
+					if r := recover(); r != nil {
+						evalErr = fmt.Errorf("%v", r)
+					}
+				}()
+				// row-specific domains
+				evd := ev
+				evd.enumerateWith(pk.Types, intDom, func(env *dtEnv) bool {
+					n++
+					a := dtAtoms{pkg: pk.Types, env: env, alias: alias}
+					if expr != nil {
+						got, err := ev.evalBool(expr, fr, env)
+						if err != nil {
+							evalErr = err
+							return false
+						}
+						if got != row.ref(a) {
+							mismatch = fmt.Sprintf("for %s the code decides %v, the table %v", env, got, !got)
+							return false
+						}
+						return true
+					}
+					if row.refInt != nil {
+						// exactly one assignment applies and it has the prescribed value
+						hits := 0
+						for _, ef := range effs {
+							ok := false
+							for _, pth := range ef.paths {
+								o, err := ev.evalGuards(pth, fr, env)
+								if err != nil {
+									evalErr = err
+									return false
+								}
+								ok = ok || o
+							}
+							if !ok {
+								continue
+							}
+							hits++
+							v, err := ev.evalInt(ef.value, fr, env)
 							if err != nil {
 								evalErr = err
 								return false
 							}
-							ok = ok || o
+							if want := row.refInt(a); v != want {
+								mismatch = fmt.Sprintf("for %s the code computes %d, the table %d", env, v, want)
+								return false
+							}
 						}
-						if !ok {
-							continue
-						}
-						hits++
-						v, err := ev.evalInt(ef.value, fr, env)
-						if err != nil {
-							evalErr = err
+						if hits != 1 {
+							mismatch = fmt.Sprintf("for %s %d assignments apply (expected exactly one)", env, hits)
 							return false
 						}
-						if want := row.refInt(a); v != want {
-							mismatch = fmt.Sprintf("for %s the code computes %d, the table %d", env, v, want)
-							return false
+						return true
+					}
+					got := false
+					for _, ef := range effs {
+						for _, pth := range ef.paths {
+							ok, err := ev.evalGuards(pth, fr, env)
+							if err != nil {
+								evalErr = err
+								return false
+							}
+							got = got || ok
 						}
 					}
-					if hits != 1 {
-						mismatch = fmt.Sprintf("for %s %d assignments apply (expected exactly one)", env, hits)
+					if got != row.ref(a) {
+						mismatch = fmt.Sprintf("for %s the code does it: %v, the table: %v", env, got, !got)
 						return false
 					}
 					return true
-				}
-				got := false
-				for _, ef := range effs {
-					for _, pth := range ef.paths {
-						ok, err := ev.evalGuards(pth, fr, env)
-						if err != nil {
-							evalErr = err
-							return false
-						}
-						got = got || ok
-					}
-				}
-				if got != row.ref(a) {
-					mismatch = fmt.Sprintf("for %s the code does it: %v, the table: %v", env, got, !got)
-					return false
-				}
-				return true
-			})
-		}()
+				})
+			}()
+			if evalErr == nil && mismatch == "" {
+				break
+			}
+			_ = ri
+		}
 		pos := fn.Pos()
 		if len(effs) > 0 {
 			pos = effs[0].node.Pos()
@@ -747,4 +835,77 @@ func (ev *dtEval) enumerateWith(pkg *types.Package, dom map[string][]int64, f fu
 	for k, t := range saved {
 		ev.intTerms[k] = t
 	}
+}
+
+// rootIdents returns the identifiers of a canonical atom name that are not field / method selectors.
+func rootIdents(name string) []string {
+	var out []string
+	i := 0
+	for i < len(name) {
+		ch := name[i]
+		isStart := ch == '_' || (ch >= 'a' && ch <= 'z') || (ch >= 'A' && ch <= 'Z')
+		if !isStart {
+			i++
+			continue
+		}
+		j := i
+		for j < len(name) && (name[j] == '_' || (name[j] >= 'a' && name[j] <= 'z') || (name[j] >= 'A' && name[j] <= 'Z') || (name[j] >= '0' && name[j] <= '9')) {
+			j++
+		}
+		if i == 0 || name[i-1] != '.' {
+			// a call like len(...) or Equal(...) is a function name, not a variable
+			if !(j < len(name) && name[j] == '(') {
+				out = append(out, name[i:j])
+			}
+		}
+		i = j
+	}
+	return out
+}
+
+func renameRoots(name string, ren map[string]string) string {
+	if len(ren) == 0 {
+		return name
+	}
+	var b strings.Builder
+	i := 0
+	for i < len(name) {
+		ch := name[i]
+		isStart := ch == '_' || (ch >= 'a' && ch <= 'z') || (ch >= 'A' && ch <= 'Z')
+		if !isStart {
+			b.WriteByte(ch)
+			i++
+			continue
+		}
+		j := i
+		for j < len(name) && (name[j] == '_' || (name[j] >= 'a' && name[j] <= 'z') || (name[j] >= 'A' && name[j] <= 'Z') || (name[j] >= '0' && name[j] <= '9')) {
+			j++
+		}
+		word := name[i:j]
+		if (i == 0 || name[i-1] != '.') && !(j < len(name) && name[j] == '(') {
+			if nn, ok := ren[word]; ok {
+				word = nn
+			}
+		}
+		b.WriteString(word)
+		i = j
+	}
+	return b.String()
+}
+
+func permute(xs []string, f func([]string)) {
+	var rec func(k int)
+	a := append([]string(nil), xs...)
+	rec = func(k int) {
+		if k == len(a) {
+			f(append([]string(nil), a...))
+			return
+		}
+		for i := k; i < len(a); i++ {
+			a[k], a[i] = a[i], a[k]
+			rec(k + 1)
+			a[k], a[i] = a[i], a[k]
+		}
+	}
+	rec(0)
 }
